@@ -51,9 +51,33 @@ def check_result(a, res, tally, choices, which):
     return parsed
 
 
+_SENT = {}
+
+
+def sentinel_recheck(a_last, tally):
+    """The first vector this worker ran (default RNG answers) is re-run after
+    other vectors and must write exactly the same files (state leaking between
+    generator runs in one process)."""
+    from ..explore import Env
+    if not _SENT:
+        return
+    res = rngenv.run_generator(_SENT["argv"], Env([]), tag="sentinel")
+    tally.inc("sentinel_rechecks")
+    if (res["files"], (res["exc"] or {}).get("fingerprint")) != _SENT["result"]:
+        tally.violation({"args": _SENT["args"], "argv": _SENT["argv"], "choices": [],
+                         "fingerprint": "output-depends-on-earlier-runs-in-the-process",
+                         "what": "re-running %r after %r gives different files than the first time"
+                                 % (_SENT["argv"], genvectors.argv_of(a_last))})
+
+
 def work_rng(item, tally, which="C08"):
+    from ..explore import Env
     a, cap, nseeds, seed0 = item
     argv = genvectors.argv_of(a)
+    if not _SENT:
+        r0 = rngenv.run_generator(argv, Env([]), tag="sentinel")
+        _SENT.update(args=a, argv=argv,
+                     result=(r0["files"], (r0["exc"] or {}).get("fingerprint")))
     n = 0
     texts = set()
     lengths = set()
@@ -75,6 +99,9 @@ def work_rng(item, tally, which="C08"):
         return
     tally.inc("vectors")
     tally.inc("executions", n)
+    if a["skew"] != _SENT["args"]["skew"] or a["n2"] == _SENT["args"]["n2"] or \
+            tally.c.get("vectors", 0) % 5 == 0:
+        sentinel_recheck(a, tally)
     tally.inc("answers", sum(1 for _ in ()) or 0)
     tally.inc("distinct_files", len(texts))
     tally.mx("max_schedules_one_vector", n)
@@ -228,6 +255,7 @@ def main(tier, which="C08"):
         "quota_vectors_default_rng": c.get("quota_vectors", 0),
         "real_rng_conformance_runs": c.get("conformance_runs", 0),
         "primitive_conformance_cases": c.get("primitive_conformance_cases", 0),
+        "sentinel_rechecks_from_non_initial_process_state": c.get("sentinel_rechecks", 0),
     }
     if not c.get("vectors"):
         tally.harness_errors.append("vacuous: no vector explored")
